@@ -119,3 +119,10 @@ Proof.
   - assert (deqv a q) by (eapply deqv_trans; [eassumption|exact E2]).
     unfold deqv in *. congruence.
 Qed.
+
+Lemma deqv_zero a b : is_zero a = true -> is_zero b = true -> deqv a b.
+Proof.
+  unfold deqv, is_zero. intros Ha Hb. apply Z.eqb_eq in Ha. apply Z.eqb_eq in Hb.
+  apply (dec_equal_scaled a b (Z.min (ex a) (ex b))); try lia.
+  unfold scale_to. rewrite Ha, Hb. reflexivity.
+Qed.
